@@ -182,7 +182,7 @@ CHECKS["C11"] = {
         {"pkg": _SS, "run": "^TestVerif_C11_", Q: {"timeout": 600}, T: {"timeout": 3400, "shards": 12}},
         {"pkg": _SS, "run": "^TestVerifCtl_C11_", "inst": ["pkg/secretstore/device_keystore_wrapper.go"], Q: {"timeout": 600}, T: {"timeout": 3400, "shards": 8}},
     ],
-    "mandatory_labels": {"all": ["derive/first-use-before-import", "import/refused", "import/accepted", "import/pre=proof-key", "import/pre=member-device", "import/blob=equal", "import/blob=rsa-account", "concurrent/dfs-schedules", "read-fault/fired"]},
+    "mandatory_labels": {"all": ["derive/first-use-before-import", "derive/stray-public-keys", "import/refused", "import/accepted", "import/pre=proof-key", "import/pre=member-device", "import/blob=equal", "import/blob=rsa-account", "concurrent/dfs-schedules", "read-fault/fired"]},
 }
 
 CHECKS["C14"] = {
@@ -448,6 +448,7 @@ _ADDED6 = {
     "C07": "Contacts whose key is not a point of the curve.",
     "C08": "Group-context layer with an undecodable entry inside a delivered batch; the receiving device may be a second device of the sender's own account (multi-member group or account group).",
     "C10": "After restart the subject store must also open its own envelopes handed out before the stop (read-back path).",
+    "C11": "Derivations are also asked for public keys nobody can hold (byte strings that are not curve points, points of small order): refused, or unrelated across accounts and keys.",
     "C12": "Descriptors are derived from every accepted way of holding a multi-member group in each case, including invitations that spell out the optional sign_pub / link_key fields.",
     "C13": "The whole (since, until, reverse) cube also over merged logs of two writers with concurrent entries, on two replicas.",
     "C14": "Service layer: the stand-alone push service created on the account's root datastore (its default secret store next to the application's), pushes of one sender opened through the service, through the application's store or arriving through the log with generated distances between counters (reply fields and AlreadyReceived flag checked).",
